@@ -10,7 +10,7 @@ def one(sid):
     try:
         subprocess.run(f"rsync -a --exclude .git --exclude '*_test.go' /repo/ {tmp}/", shell=True, check=True)
         r = subprocess.run(f"git apply --directory={tmp} --unsafe-paths {d}/patch.diff 2>&1 || patch -p1 -s -d {tmp} < {d}/patch.diff", shell=True, cwd="/", stdout=subprocess.PIPE, stderr=subprocess.STDOUT)
-        out = subprocess.run(["/verif/bin/jrpcheck", "-repo", tmp, "-property", "all", "-no-evidence", "-json"], stdout=subprocess.PIPE, stderr=subprocess.STDOUT).stdout.decode()
+        out = subprocess.run([os.environ.get("JRPCHECK", "/verif/bin/jrpcheck"), "-repo", tmp, "-property", "all", "-no-evidence", "-json"], stdout=subprocess.PIPE, stderr=subprocess.STDOUT).stdout.decode()
         line = out.strip().split("\n")[-1]
         try:
             obls = json.loads(line)
